@@ -109,6 +109,7 @@ func TestPropConcurrent(t *testing.T) {
 		}
 		ev.R().Case(ev.Hash(&c), nt, classes, func() any { return &c })
 		ev.R().Count("conc_reader_actions", st.actions)
+		ev.R().Count("conc_seek_probes", st.probes)
 		ev.R().Count("conc_reader_actions_started_while_writer_running", st.overlapping)
 		if f != nil {
 			path := ev.R().Fail(f.V.Sig, f.V.Msg, Doc{Property: "C18", Kind: "conc", Conc: &c, Signature: f.V.Sig, Message: f.V.Msg, Recorded: f})
